@@ -61,8 +61,18 @@ unsafe fn guarded_alloc(size: usize, zeroed: bool) -> *mut u8 {
     p
 }
 
+/// Set when a byte buffer that should have been guarded could not be (table full): the run in
+/// flight can no longer rely on the slack and is abandoned as unevaluable.
+pub static GUARD_TABLE_FULL: AtomicU64 = AtomicU64::new(0);
+
 fn want_guard(layout: &Layout) -> bool {
-    layout.align() == 1 && layout.size() > 0 && GUARD_BYTES.load(Ordering::Relaxed) == 1 && unsafe { (*GUARDED.0.get()).1 < MAXG }
+    if layout.align() == 1 && layout.size() > 0 && GUARD_BYTES.load(Ordering::Relaxed) == 1 {
+        if unsafe { (*GUARDED.0.get()).1 < MAXG } {
+            return true;
+        }
+        GUARD_TABLE_FULL.store(1, Ordering::Relaxed);
+    }
+    false
 }
 
 pub fn guard_byte_allocs(on: bool) {
